@@ -372,7 +372,7 @@ func checkOnce(t *T, prop func(*T)) (err *testError) {
 		err = panicToError(recover(), 3)
 		// T is reused for the next test case, and a non-fatal failure can be followed by a skip
 		// or be signalled from a cleanup function: it still falsifies this (and only this) test case.
-		if msg := t.takeFailed(); msg != "" && (err == nil || err.isInvalidData()) {
+		if msg, failed := t.takeFailed(); failed && (err == nil || err.isInvalidData()) {
 			err = &testError{data: msg, traceback: nonFatalTraceback}
 		}
 	}()
@@ -527,6 +527,7 @@ type T struct {
 	refDraws []any
 	mu       sync.RWMutex
 	failed   stopTest
+	isFailed bool // failed can legitimately be empty: t.Error(), t.Errorf("")
 }
 
 func newT(tb tb, s bitStream, tbLog bool, rawLog *log.Logger, refDraws ...any) *T {
@@ -775,7 +776,7 @@ func (t *T) Failed() bool {
 	t.mu.RLock()
 	defer t.mu.RUnlock()
 
-	return t.failed != ""
+	return t.isFailed
 }
 
 func (t *T) skip(msg string) {
@@ -787,24 +788,25 @@ func (t *T) fail(now bool, msg string) {
 	defer t.mu.Unlock()
 
 	t.failed = stopTest(msg)
+	t.isFailed = true
 	if now {
 		panic(t.failed)
 	}
 }
 
-func (t *T) takeFailed() stopTest {
+func (t *T) takeFailed() (stopTest, bool) {
 	t.mu.Lock()
 	defer t.mu.Unlock()
 
-	failed := t.failed
-	t.failed = ""
-	return failed
+	msg, failed := t.failed, t.isFailed
+	t.failed, t.isFailed = "", false
+	return msg, failed
 }
 
 // adoptFailure makes a non-fatal failure signalled on inner (the T handed to a Custom generator function)
 // a non-fatal failure of t.
 func (t *T) adoptFailure(inner *T) {
-	if msg := inner.takeFailed(); msg != "" {
+	if msg, failed := inner.takeFailed(); failed {
 		t.fail(false, string(msg))
 	}
 }
@@ -813,7 +815,7 @@ func (t *T) failOnError() {
 	t.mu.RLock()
 	defer t.mu.RUnlock()
 
-	if t.failed != "" {
+	if t.isFailed {
 		panic(t.failed)
 	}
 }
